@@ -124,6 +124,17 @@ def multi_file_cases(ctx):
     out.append(("same-name-two-files", {"s.json": {"$id": "http://x/main", "type": "object",
                                                    "properties": {"a": {"$ref": "a.json#/$defs/Item"}, "b": {"$ref": "b.json#/$defs/Item"}, "c": {"$ref": "sub/c.json"}}},
                                         "a.json": ia, "b.json": ib, "sub/c.json": ic}, "s.json", []))
+    # files with the same base name at two depths, reached through ../ , ./ and bare spellings from the same referring file
+    t_top = {"description": "shared types", "$defs": {"Id": {"type": "string", "minLength": 3}, "Qty": {"type": "integer", "minimum": 0}}}
+    t_sub = {"description": "order-local types", "$defs": {"Id": {"type": "integer", "minimum": 1}, "Qty": {"type": "number", "maximum": 9.5}}}
+    order2 = {"type": "object", "properties": {"customer": {"$ref": "../types.json#/$defs/Id"}, "number": {"$ref": "types.json#/$defs/Id"},
+                                               "amount": {"$ref": "./types.json#/$defs/Qty"}, "stock": {"$ref": "../types.json#/$defs/Qty"}}, "required": ["customer", "number"]}
+    out.append(("same-base-name-two-depths", {"s.json": {"$id": "http://x/main", "type": "object", "properties": {"o": {"$ref": "sub/order.json"}, "top": {"$ref": "types.json#/$defs/Id"}},
+                                                         "required": ["o"]},
+                                              "sub/order.json": order2, "types.json": t_top, "sub/types.json": t_sub}, "s.json", []))
+    out.append(("same-base-name-two-depths-local-first", {"s.json": {"$id": "http://x/main", "type": "object", "properties": {"o": {"$ref": "./sub/order.json"}}, "required": ["o"]},
+                                                          "sub/order.json": {"type": "object", "properties": {"number": {"$ref": "types.json#/$defs/Id"}, "customer": {"$ref": "../types.json#/$defs/Id"}}},
+                                                          "types.json": t_top, "sub/types.json": t_sub}, "s.json", []))
     out.append(("parent-dir", {"s.json": top, "sub/mid.json": mid, "leaf.json": leaf}, "s.json", []))
     return out
 
@@ -250,7 +261,9 @@ def run(ctx):
         if w.get("kind") == "cli-cwd":
             r = Run("kfcwd", w["files"], w["argv"], cwd=w["cwd"])
             run_all(ctx, [r])
-            ctx.known(f, r.status != 0, "status %s %s" % (r.status, r.stderr.decode("utf-8", "replace")[:160]))
+            out = r.stdout.decode("utf-8", "replace")
+            bad = [b for b in w.get("bad_stdout", []) if b in out]
+            ctx.known(f, r.status != 0 or bool(bad), "status %s %s %s" % (r.status, r.stderr.decode("utf-8", "replace")[:160], bad))
     ctx.cov["rule"] = ("ref-vs-inline: random in-guard schemas with definitions, each also with every $ref replaced by a copy of its target; multi-file: definitions in a sibling / "
                        "sub-directory / YAML / extension-less (--resolve-extension) file, whole-file references through a parent directory, and two files that use the same local "
                        "reference text inside allOf with different targets; both forms run on the same schema-directed documents (valid + single-fault); observables: verdict and "
